@@ -7,3 +7,6 @@ import P2P.Props.C02
 #print axioms P2P.Props.C02.set_termini_chainwise
 #print axioms P2P.Props.C02.neutral_nterm_shift
 #print axioms P2P.Props.C02.formal_range
+#print axioms P2P.Props.C02.charge_table
+#print axioms P2P.Props.C02.charge_table_coverage
+#print axioms P2P.Props.C02.parse_neutral_cterm_pro_refuted
